@@ -5,11 +5,12 @@ a fast path from 500 elements on, a tile of 64, a cache for matrices of 10 000 c
 2^31 / 1000, a printed form abbreviated beyond 1000 items, a tolerance that bites once totals reach 1e5.
 
 Profiles (gen_large):
-  wide   63 .. 1025 elements (gen.THRESHOLD_SIZES), 1-5 rankings
+  wide   63 .. 1025 elements (gen.THRESHOLD_SIZES), 1-5 rankings ("sweep": every one of these sizes in turn)
   tall   20 .. 100 elements, 40 .. 257 rankings
   heavy  300 elements x 120 independent permutations: Kemeny scores above 2^31 / 1000
   cells  incomplete datasets of at least 10 000 (element, ranking) cells
-  huge   3000 elements x 40 near-identical rankings: position totals above 1e5
+  huge   3000 elements x 64 rankings (one order, a third of the neighbours tied in all rankings but one or two): position
+         totals above 1e5, means that differ by 1/64 on values of 2500+
 """
 from vf import gen, ref
 from vf.core import call, exc_desc
@@ -18,9 +19,13 @@ from vf.lazy import ck, libx, common, np
 PROFILES = ["wide", "wide", "wide", "tall", "heavy", "cells", "cells"]
 
 
-def gen_large(rng, profiles=None, schemes="S1 S1 S2 S3 S15"):
+def gen_large(rng, profiles=None, schemes="S1 S1 S2 S3 S15", index=None):
+    """index: position of the case in its shard -- the profile 'sweep' walks through gen.THRESHOLD_SIZES with it, so that a
+    shard of len(gen.THRESHOLD_SIZES) cases meets every size"""
     profile = rng.choice(profiles or PROFILES)
-    if profile == "wide":
+    if profile == "sweep":
+        n, m, style = gen.THRESHOLD_SIZES[(index or 0) % len(gen.THRESHOLD_SIZES)], None, None
+    elif profile == "wide":
         n, m, style = rng.choice(gen.THRESHOLD_SIZES), None, None
     elif profile == "tall":
         n, m, style = rng.choice([20, 30, 64, 65, 100]), rng.choice([40, 100, 127, 128, 129, 200, 255, 256, 257]), None
@@ -30,7 +35,7 @@ def gen_large(rng, profiles=None, schemes="S1 S1 S2 S3 S15"):
         n, m = rng.choice([(100, 100), (128, 80), (500, 20), (101, 100)])
         style = "near-incomplete"
     else:
-        n, m, style = 3000, 40, rng.choice(["near", "identical"])
+        n, m, style = 3000, 64, "mostly-tied-pairs"
     ds, base = gen.large_dataset(rng, n, m, style)
     scls, sch = gen.scheme(rng, schemes)
     if profile == "heavy":
